@@ -718,15 +718,19 @@ struct Exec {
       size_t sz = size_of_type(t); if (!sz) sz = 1;
       // only requests whose exact size is >= 2^64 (the product wraps): sizes in [2^31, 2^64) would exercise buffer growth
       // with astronomic sizes, which is allocation-failure territory (C15), not argument validation
-      static const size_t reps[] = {1, 1, 2, SIZE_MAX / 2 + 1};
-      rep = reps[r.below(4)];
+      // (repeat 2^63 only together with a non-wrapping item size: a defect that wraps item_count * size to 0 would otherwise
+      // spin 2^63 times over nothing - a timeout tells less than a wrong result)
+      rep = 1 + r.below(2);
       switch (r.below(4)) {
         case 0: cnt = SIZE_MAX / sz + 1; break;
         case 1: cnt = SIZE_MAX / sz + 2; break;                      // wraps to about one item
         case 2: cnt = SIZE_MAX / sz + 1 + r.below(4); break;
         default: cnt = SIZE_MAX / sz; rep = r.chance(1, 2) ? 2 : SIZE_MAX / 2 + 1; break;
       }
-      if ((((unsigned __int128)cnt * sz * rep) >> 64) == 0) { cnt = SIZE_MAX / sz + 2; }
+      // (harness arithmetic wraps too, e.g. SIZE_MAX / 1 + 2 == 1): whatever is left below 2^64 becomes 3 x size x 2^63.
+      // A non-wrapping astronomic size (>= ~2^40) makes CodeHolder::grow_buffer() step through the range in 16 MiB
+      // increments - practically a hang; reported as a lead, not generated.
+      if ((((unsigned __int128)cnt * sz * rep) >> 64) == 0) { cnt = 3; rep = SIZE_MAX / 2 + 1; }
     }
     // exact size of the request as integers (no wrap): ew = 1 when it does not fit 2^31 (then an accepted call is wrong)
     size_t sz = size_of_type(t);
